@@ -30,7 +30,9 @@ Definition observe (s : st) (x : res) : obs :=
   mkobs x (state s)
         (match r s with Some y => Some (rmode y) | None => None end)
         (dcount s)
-        (match r s with Some _ => Some (image (applied s)) | None => None end).
+        (match r s with
+         | Some y => match rmode y with CLOSED => None | _ => Some (image (applied s)) end   (* files closed: unreadable *)
+         | None => None end).
 
 Fixpoint trace (s : st) (ts : list top) : list obs :=
   match ts with
@@ -125,6 +127,9 @@ Definition c17_eng (prev : obs) (o : op) (cur : obs) : bool :=
       if mode_is prev RW then true else negb (is_ok (ores cur)) && unchanged prev cur
   | OSetRev _ =>
       if mode_is prev RW then true else negb (is_ok (ores cur)) && unchanged prev cur
+  | OCloseFail =>
+      (* whether or not the close reported an error, a replica whose files were closed serves nothing *)
+      negb (serving cur)
   | _ => true
   end.
 
